@@ -306,6 +306,7 @@ type Worker struct {
 	ptrIDs      map[interface{}]int
 	out         []*smt.Term
 	floatText   map[int64]Str
+	floatByText map[string]*smt.Term
 }
 
 func newWorker(ex *Explorer, id int) (*Worker, error) {
@@ -348,6 +349,7 @@ func (w *Worker) runPath(prefix []Decision, startModel map[string]uint64) *Path 
 	w.ptrIDs = nil
 	w.out = nil
 	w.floatText = map[int64]Str{}
+	w.floatByText = map[string]*smt.Term{}
 	w.sched = newSched(w)
 	nerr := len(w.solver.Errors)
 	if w.pathsRun > 0 && w.pathsRun%500 == 0 {
